@@ -1065,6 +1065,9 @@ class AgentNotFoundError(Exception):
         self.message = f'Agent "{a_id}" could not be found in Environment "{environment.id}"'
         super(AgentNotFoundError, self).__init__(self.message)
 
+    def __reduce__(self):  # Keeps the exception picklable (e.g. when it is sent back from a batch worker process)
+        return self.__class__, (self.a_id, self.environment)
+
 
 class DuplicateAgentError(Exception):
     """Exception raised for errors when an agent object already exists in an environment.
@@ -1091,6 +1094,9 @@ class DuplicateAgentError(Exception):
         self.environment = environment
         self.message = f'Agent "{a_id}" already exists in Environment "{environment.id}"'
         super(DuplicateAgentError, self).__init__(self.message)
+
+    def __reduce__(self):  # Keeps the exception picklable (e.g. when it is sent back from a batch worker process)
+        return self.__class__, (self.a_id, self.environment)
 
 
 class ComponentNotFoundError(Exception):
@@ -1120,6 +1126,9 @@ class ComponentNotFoundError(Exception):
         self.message = f'Agent {agent.id} does not have a component of type {str(component_type)}.'
         super(ComponentNotFoundError, self).__init__(self.message)
 
+    def __reduce__(self):  # Keeps the exception picklable (e.g. when it is sent back from a batch worker process)
+        return self.__class__, (self.agent, self.component_type)
+
 
 class SystemNotFoundError(Exception):
     """Exception raised for errors when systems that don't exist are accessed.
@@ -1143,6 +1152,9 @@ class SystemNotFoundError(Exception):
         self.message = f'System with id "{s_id}" does not exist.'
         super(SystemNotFoundError, self).__init__(self.message)
 
+    def __reduce__(self):  # Keeps the exception picklable (e.g. when it is sent back from a batch worker process)
+        return self.__class__, (self.s_id,)
+
 
 class ModelCompleteError(Exception):
     """Exception raised for errors when systems are executed and Model is marked as finished.
@@ -1156,3 +1168,6 @@ class ModelCompleteError(Exception):
     def __init__(self):
         self.message = 'execute_systems() was called on a model with status "ModelStatus.COMPLETE".'
         super(ModelCompleteError, self).__init__(self.message)
+
+    def __reduce__(self):  # Keeps the exception picklable (e.g. when it is sent back from a batch worker process)
+        return self.__class__, ()
